@@ -170,7 +170,7 @@ def run(repo, chk):
     chk.ob("R16.3", "probe.OverridableProbe._emit:ABSENT-unless-overridden", facts_of(oe).has("self._value = ABSENT", exactly=[]) and [norm(r.value) for r in returns_of(oe.node)] == ["self._value"], oe.where,
            "an overridable probe answers ABSENT unless a subscriber set a value during the push")
     ck = repo.func("interpret.BaseAccumulator.__check.new_fn")
-    chk.ob("R16.3", "interpret.BaseAccumulator.__check:failed-check-answers-ABSENT", any(norm(r.value) == "ABSENT" for r in returns_of(ck.node)), ck.where,
+    chk.ob("R16.3", "interpret.BaseAccumulator.__check:failed-check-answers-ABSENT", any(t == "return ABSENT" and any(x.startswith("not ") and "check_captures(" in x for x in c) for t, c, n in facts_of(ck).items), ck.where,
            "a handler whose value conditions fail answers ABSENT (no override, no event)")
     il = [repo.func("interpret.Immediate.log"), repo.func("interpret.Total.log")]
     chk.ob("R16.3", "interpret.*.log:only-called-after-guard", all("value" in [a.arg for a in f.node.args.args] for f in il), il[0].where,
